@@ -795,6 +795,10 @@ impl Monitor for StateMonitor {
                     "missing_root/builder_defaults",
                     "missing_root/bytes_v3",
                     "missing_root/jax",
+                    "missing_root/ontology_without_any_term",
+                    "obtained/clone",
+                    "obtained/clone_from",
+                    "obtained/minimal_then_set_default_calls",
                     "term_below_several_categories",
                     "term_below_modifier_and_phenotype",
                     "phenotype_root_not_below_all",
@@ -875,6 +879,65 @@ impl Monitor for StateMonitor {
                 out.violate(self.prop, &format!("{kind}/{}", sc.path.name()), format!("valid facts rejected: {e}"));
                 return out;
             }
+        };
+        // C19: the same classification must hold for an ontology obtained in other documented ways:
+        // a clone, a clone_from into a destination that held another ontology, or a minimal build
+        // followed by the two public set_default_* calls in either order
+        let ont = if label.starts_with("rndc19") {
+            match rng.below(8) {
+                1 => {
+                    out.bucket("obtained/clone");
+                    ont.clone()
+                }
+                2 => {
+                    out.bucket("obtained/clone_from");
+                    let mut dst = if rng.chance(1, 2) {
+                        Ontology::default()
+                    } else {
+                        let mut other = gen_c19_facts(&mut rng, false);
+                        other.recs = Default::default();
+                        match drive::via_builder(&other.builder_view(), None, true) {
+                            Ok(o) => o,
+                            Err(_) => Ontology::default(),
+                        }
+                    };
+                    dst.clone_from(&ont);
+                    dst
+                }
+                3 | 4 | 5 if sc.path == PathKind::BuilderDefaults => {
+                    out.bucket("obtained/minimal_then_set_default_calls");
+                    let cats_first = rng.chance(1, 2);
+                    match drive::via_builder(&sc.view, None, false) {
+                        Ok(mut o) => {
+                            let r = guard(std::panic::AssertUnwindSafe(|| {
+                                if cats_first {
+                                    o.set_default_categories().and_then(|()| o.set_default_modifier())
+                                } else {
+                                    o.set_default_modifier().and_then(|()| o.set_default_categories())
+                                }
+                            }));
+                            match r {
+                                Ok(Ok(())) => o,
+                                Ok(Err(e)) => {
+                                    out.violate("C19", "set_default_calls_failed", format!("set_default_* on an ontology holding HP:1 and HP:118 failed: {e}"));
+                                    return out;
+                                }
+                                Err(p) => {
+                                    out.violate("C19", "panic:set_default_calls", format!("{} at {}", p.message, p.location));
+                                    return out;
+                                }
+                            }
+                        }
+                        Err(e) => {
+                            out.violate("C19", "construct_err/builder_minimal", format!("valid facts rejected: {e}"));
+                            return out;
+                        }
+                    }
+                }
+                _ => ont,
+            }
+        } else {
+            ont
         };
         let (model, obs, diffs) = walk_and_diff(&sc.view, sc.path.has_defaults(), &ont, &mut out);
         structural_buckets(&model, &mut out);
